@@ -181,6 +181,7 @@ func c20Child(args []string) int {
 		if err := root.ParseString(subSDL); err != nil {
 			return 2
 		}
+		ro.root = root
 		clients := 4 + r.Intn(5)
 		scenario := h % 4 // 0 mixed, 1 failure-free (linearizability), 2 two publishers failing on one subscriber, 3 unsubscribe racing clean-up
 		var nextSub int32
@@ -570,6 +571,10 @@ type c20Root struct {
 	mu      sync.Mutex
 	log     *subLog
 	pending map[string]*hSub
+	// root, when set, is used by every third subscription resolver the way a "newest stream of a client replaces the old
+	// one" server does: it calls Unsubscribe (with an id nobody matches, so the history is the same) before it makes the
+	// new stream. Resolvers are application code running outside the registry's critical sections.
+	root *ggql.Root
 }
 
 func (r *c20Root) Resolve(field *ggql.Field, args map[string]interface{}) (interface{}, error) {
@@ -593,6 +598,10 @@ func (s *c20Subs) Resolve(field *ggql.Field, args map[string]interface{}) (inter
 	s.r.mu.Unlock()
 	if h == nil {
 		return nil, fmt.Errorf("harness: no subscriber prepared for %q", t)
+	}
+	if s.r.root != nil && h.sid%3 == 0 {
+		_ = s.r.root.Unsubscribe("B:zz-nobody-listens-to-this")
+		_, _ = s.r.root.AddEvent("B:zz-nobody-listens-to-this", 1)
 	}
 	return ggql.NewSubscription(h, field, args), nil
 }
